@@ -181,16 +181,16 @@ func (dist *BinomialDistribution) ImportConfig(config ConfigDistribution, t Scal
   if parameters, ok := config.GetParametersAsFloats(); !ok {
     return fmt.Errorf("invalid config file")
   } else {
-    // the first parameter is log(theta), see GetParameters()
-    theta := NewScalar(t, parameters[0])
-    theta.Exp(theta)
-    n     := int(parameters[1])
-
-    if tmp, err := NewBinomialDistribution(theta, n); err != nil {
-      return err
-    } else {
-      *dist = *tmp
+    // the first parameter is log(theta), see GetParameters(); it is kept as
+    // it is (going through exp and log again changes its last bit)
+    if len(parameters) != 2 {
+      return fmt.Errorf("invalid config file")
     }
+    n := int(parameters[1])
+    if !(parameters[0] <= 0.0) || n < 0 {
+      return fmt.Errorf("invalid parameters")
+    }
+    *dist = *newBinomialDistribution(NewScalar(t, parameters[0]), n)
     return nil
   }
 }
